@@ -52,6 +52,7 @@ def _inlinable(facts, caller, call, stop, lambdas):
     receiver = None
     src_local = False
     nested_helper = False
+    local_class = False
     if call.get("ck") == "member":
         o = skip_copies(call.get("obj"))
         if not (isinstance(o, dict) and o.get("k") == "this"):
@@ -66,7 +67,9 @@ def _inlinable(facts, caller, call, stop, lambdas):
             # (c) a method of a helper class nested in the caller's class, called on the caller's own member (m_worker->bindTo(...))
             nested_helper = bool(caller.cls) and bool(f.cls) and strip_tmpl(f.cls).startswith(strip_tmpl(caller.cls) + "::") and not f.d.get("virtual") and \
                 isinstance(o, dict) and o.get("k") == "member" and skip_copies(o.get("base") or {}).get("k") == "this"
-            if named and ("(anonymous namespace)" in f.name or private_peer or src_local or nested_helper):
+            # (d) a method of a class declared inside a function (a local helper struct), called on a local object of that class
+            local_class = "(" in strip_tmpl(f.cls or "").replace("(anonymous namespace)", "").replace("(anonymous class)", "") and not f.d.get("virtual")
+            if named and ("(anonymous namespace)" in f.name or private_peer or src_local or nested_helper or local_class):
                 # (b) a private method of the enclosing class called by a nested helper class through its back pointer (Worker -> handler)
                 receiver = o
             else:
@@ -74,7 +77,7 @@ def _inlinable(facts, caller, call, stop, lambdas):
     m = _method_info(facts, f)
     if m is not None:
         # access: 0 public, 1 protected, 2 private (clang AS_* order: public=0, protected=1, private=2)
-        if m.get("access") == 0 and "(anonymous namespace)" not in f.name and "Private::" not in f.name and not (receiver is not None and (src_local or nested_helper)):
+        if m.get("access") == 0 and "(anonymous namespace)" not in f.name and "Private::" not in f.name and not (receiver is not None and (src_local or nested_helper or local_class)):
             return None
         if m.get("kind") in ("ctor", "dtor"):
             return None
